@@ -291,6 +291,12 @@ func runMigrate(dir string, seed uint64, tier string) {
 			return
 		}
 		after, left, ver, decoded := readStore()
+		if ready && version == 2 && ver != "3" {
+			// readiness is announced with the migration's outcome: success only if the store was migrated
+			fail(id, "ready-without-error-after-failed-migration", "listeners were told the manager is ready (no error) although the migration did not complete: the store is still at version "+ver+" and channel operations are refused", label, "nil", "the migration's error")
+			_ = m.Stop(ctx)
+			continue
+		}
 		// ----- direct monitors: every field preserved, paused statuses mapped -----
 		if ready && version == 2 {
 			for i, o := range v2 {
@@ -311,6 +317,12 @@ func runMigrate(dir string, seed uint64, tier string) {
 				if nw.Status != wantStatus || nw.InitiatorPaused != wantIP || nw.ResponderPaused != wantRP {
 					fail(id, "status-mapping:"+statusName(o.Status), "the migrated status / pause flags are not the specified mapping", label,
 						fmt.Sprintf("%s ip=%v rp=%v", statusName(nw.Status), nw.InitiatorPaused, nw.ResponderPaused), fmt.Sprintf("%s ip=%v rp=%v", statusName(wantStatus), wantIP, wantRP))
+					if isTerminal(o.Status) {
+						// C02: a terminated channel stays as it is across a process restart, also the one that migrates the store
+						res.fail(monitorFailure{Property: "C02", CaseID: id, Signature: "terminal-changed-by-migration:" + statusName(o.Status),
+							What: "a channel that had terminated before the process stopped has another status after the restart that migrated the datastore", Input: label,
+							Observed: statusName(nw.Status), Expected: statusName(o.Status)})
+					}
 				}
 				// compare every other field through the printers (the v2 printer omits the flags, so blank them)
 				cp := *nw
@@ -319,6 +331,20 @@ func runMigrate(dir string, seed uint64, tier string) {
 					Selector: cp.Selector, Sender: cp.Sender, Recipient: cp.Recipient, TotalSize: cp.TotalSize, Status: cp.Status, Queued: cp.Queued, Sent: cp.Sent,
 					Received: cp.Received, Message: cp.Message, Vouchers: cp.Vouchers, VoucherResults: cp.VoucherResults, ReceivedBlocksTotal: cp.ReceivedBlocksTotal,
 					QueuedBlocksTotal: cp.QueuedBlocksTotal, SentBlocksTotal: cp.SentBlocksTotal, DataLimit: cp.DataLimit, RequiresFinalization: cp.RequiresFinalization, Stages: cp.Stages}
+				// C19: the views of a migrated channel agree with how it was created
+				if view := channels.VerifFromInternal(*nw); view != nil {
+					wasPull := o.Sender == o.Responder
+					wantID := datatransfer.ChannelID{Initiator: o.Initiator, Responder: o.Responder, ID: o.TransferID}
+					wantOther := o.Responder
+					if o.SelfPeer == o.Responder {
+						wantOther = o.Initiator
+					}
+					if view.IsPull() != wasPull || view.ChannelID() != wantID || view.OtherPeer() != wantOther || view.Sender() != o.Sender || view.Recipient() != o.Recipient {
+						res.fail(monitorFailure{Property: "C19", CaseID: id, Signature: "migrated-channel-views-inconsistent",
+							What: "the views of a channel read after the datastore migration disagree with how the channel was created (direction, channel id, other peer, sender / recipient)", Input: label,
+							Observed: fmt.Sprintf("pull=%v id=%v other=%v", view.IsPull(), view.ChannelID(), view.OtherPeer()), Expected: fmt.Sprintf("pull=%v id=%v other=%v", wasPull, wantID, wantOther)})
+					}
+				}
 				if coqChan2(&asV2, nil) != coqChan2(o, nil) {
 					fail(id, "field-not-preserved", "a field of a version-2 channel changed in migration", label, coqChan2(&asV2, nil), coqChan2(o, nil))
 				}
